@@ -37,7 +37,7 @@ func JSONPBWithOpt(m protoreflect.ProtoMessage, filename string, fs afero.Fs, o 
 }
 
 // Recognise extra whitespace after a JSON key.
-var extraSpaceAfterKeyRE = regexp.MustCompile(`(?m)^(\s*"[^"]*": ) `)
+var extraSpaceAfterKeyRE = regexp.MustCompile(`(?m)^(\s*"(?:[^"\\]|\\.)*": ) `)
 
 // FJSONPB ...
 func FJSONPB(w io.Writer, m protoreflect.ProtoMessage) error {
